@@ -23,7 +23,8 @@ HInit == [ snd        |-> EmptyFn, \* task id -> [arb, thr, kind, st]; st: "open
            afterGone  |-> {},      \* ids whose send started after that arbiter was observed gone (join returned)
            stopStarted|-> {},      \* arbiters on which some stop() call has started
            stopEnded  |-> {},      \* arbiters on which some stop() call has ended
-           started    |-> <<>>,    \* task starts in order: [id, arb, tid, cur, sysok, afterJoin]
+           started    |-> EmptyFn, \* arb -> task starts on that arbiter in order: [id, arb, tid, cur, sysok, afterJoin]
+                                   \* (per arbiter: no predicate compares the order of starts of different arbiters)
            echoes     |-> {},      \* [arb, tid]: a marker sent through Arbiter::current() inside a task of arb ran on tid
            created    |-> {},      \* arbiters whose Arbiter::new() has returned
            mustStop   |-> {},      \* arbiters created before the first System stop call started
@@ -58,8 +59,9 @@ H_StopStart(g, a) == [g EXCEPT !.stopStarted = @ \cup {a}]
 H_StopEnd(g, a) == [g EXCEPT !.stopEnded = @ \cup {a}]
 
 H_TaskStart(g, id, a, tid, cur, sysid) ==
-  [g EXCEPT !.started = Append(@, [id |-> id, arb |-> a, tid |-> tid, cur |-> cur,
-                                   sysok |-> (sysid = g.sysId), afterJoin |-> (a \in g.gone)])]
+  [g EXCEPT !.started = Put(@, a, Append(IF Has(g.started, a) THEN g.started[a] ELSE <<>>,
+                                         [id |-> id, arb |-> a, tid |-> tid, cur |-> cur,
+                                          sysok |-> (sysid = g.sysId), afterJoin |-> (a \in g.gone)]))]
 H_Echo(g, a, tid) == [g EXCEPT !.echoes = @ \cup {[arb |-> a, tid |-> tid]}]
 
 H_SysStopStart(g, code) ==
@@ -100,34 +102,38 @@ C09_AllRegisteredStop == \A a \in h.mustStop : Has(h.joined, a) => h.joined[a] #
 
 \* arbiters that stopped before the stop was issued do not disturb it: with such arbiters present the
 \* run still returns and every other arbiter still stops; they themselves stay gone
+St(a) == IF Has(h.started, a) THEN h.started[a] ELSE <<>>
+AllStarts == UNION {{St(a)[i] : i \in 1..Len(St(a))} : a \in DOMAIN h.started}
 C09_EarlyStoppedDeregistered ==
   h.early # {} =>
      /\ h.run.st # "timeout"
      /\ \A b \in h.mustStop : Has(h.joined, b) => h.joined[b] # "timeout"
-     /\ \A i \in 1..Len(h.started) : h.started[i].arb \in h.early => ~h.started[i].afterJoin
+     /\ \A s \in AllStarts : s.arb \in h.early => ~s.afterJoin
 
 (* ------------------------------ C10 ------------------------------ *)
-StartIdx(id) == {i \in 1..Len(h.started) : h.started[i].id = id}
-Started(id) == StartIdx(id) # {}
+StartIdx(id) == LET q == St(h.snd[id].arb) IN {i \in 1..Len(q) : q[i].id = id}
+Started(id) == \E s \in AllStarts : s.id = id
 Min(S) == CHOOSE x \in S : \A y \in S : x <= y
 
 \* if send i ended before send j (same arbiter) started and j started, then i started, earlier
 C10_StartOrderRespectsSendOrder ==
   \A p \in h.prec :
-     (h.snd[p[1]].st = "true" /\ Started(p[2])) => (Started(p[1]) /\ Min(StartIdx(p[1])) < Min(StartIdx(p[2])))
+     (h.snd[p[1]].st = "true" /\ StartIdx(p[2]) # {}) =>
+         (StartIdx(p[1]) # {} /\ Min(StartIdx(p[1])) < Min(StartIdx(p[2])))
 
-C10_AtMostOnce == \A i, j \in 1..Len(h.started) : h.started[i].id = h.started[j].id => i = j
+C10_AtMostOnce ==
+  /\ \A a \in DOMAIN h.started : \A i, j \in 1..Len(St(a)) : St(a)[i].id = St(a)[j].id => i = j
+  /\ \A s1, s2 \in AllStarts : s1.id = s2.id => s1.arb = s2.arb
 
 \* tasks of one arbiter run on one thread that is no client thread (system arbiter: the system thread),
 \* different arbiters on different threads; there Arbiter::current() and System::current() are that
 \* arbiter (a marker sent through it runs on the same thread) and that system
 C10_OnOwnThread ==
-  /\ \A i \in 1..Len(h.started) :
-        LET s == h.started[i] IN
-          /\ s.cur = "ok" /\ s.sysok
-          /\ IF s.arb = 0 THEN (h.sysTid # 0 => s.tid = h.sysTid) ELSE s.tid \notin h.clients
-          /\ \A j \in 1..Len(h.started) : (h.started[j].arb = s.arb) <=> (h.started[j].tid = s.tid)
-  /\ \A e \in h.echoes : \A i \in 1..Len(h.started) : h.started[i].arb = e.arb => h.started[i].tid = e.tid
+  /\ \A s \in AllStarts :
+        /\ s.cur = "ok" /\ s.sysok
+        /\ IF s.arb = 0 THEN (h.sysTid # 0 => s.tid = h.sysTid) ELSE s.tid \notin h.clients
+        /\ \A s2 \in AllStarts : (s2.arb = s.arb) <=> (s2.tid = s.tid)
+  /\ \A e \in h.echoes : \A s \in AllStarts : s.arb = e.arb => s.tid = e.tid
 
 \* nothing whose send started after a stop() call on that arbiter ended ever starts
 C10_NothingAfterStop == \A id \in h.afterStop : ~Started(id)
@@ -137,7 +143,7 @@ C10_SpawnFalseWhenGone == \A id \in h.afterGone : h.snd[id].st # "true"
 
 \* join returns only after the loop has ended: no task starts afterwards, and some stop had been issued
 C10_JoinAfterLoopEnd ==
-  /\ \A i \in 1..Len(h.started) : ~h.started[i].afterJoin
+  /\ \A s \in AllStarts : ~s.afterJoin
   /\ h.joinNoCause = {}
 
 C10_BlockOnOutput == \A b \in h.blockon : b[1] = b[2]
@@ -149,6 +155,7 @@ X_EarlyStopJoins == h.earlyTimeout = {}
 
 \* antecedent counters for the evidence (a run is non-trivial for a clause if its antecedent occurred)
 NT_Order == \E p \in h.prec : Started(p[2])
+NT_Started == AllStarts # {}
 NT_AfterStop == h.afterStop # {}
 NT_AfterGone == h.afterGone # {}
 NT_MustStop == h.mustStop # {}
